@@ -35,7 +35,7 @@ for nb in (1, 8):
                      "member by member; is_empty() == (no bit < num_bits set)", _W % nb))
 _CODEC = ("SequenceNumberSet: bytes written == len_serialized() == 12 + 4*ceil(num_bits/32); read(write(s)) == s "
           "field by field (all bitmap words incl. bits beyond num_bits)")
-_QUICK_CODEC = {("sn", 0, "le"), ("sn", 33, "le"), ("sn", 256, "le"), ("sn", 256, "be"), ("fn", 33, "be"), ("fn", 256, "le")}
+_QUICK_CODEC = {("sn", 0, "le"), ("sn", 33, "le"), ("sn", 256, "le"), ("fn", 33, "be")}
 for en in ("le", "be"):
     for nb in (0, 1, 31, 32, 33, 255, 256):
         _numset.append(H("c14_numset_codec_sn_%d_%s" % (nb, en), _ns, _CODEC, _W % nb + "; byte order " + en.upper(),
@@ -47,7 +47,7 @@ for en in ("le", "be"):
 _numset.append(H("c14_numset_read_rejects_over_256", _ns,
                  "SequenceNumberSet / FragmentNumberSet::read_from reject every numBits > 256 (any other bytes, both byte orders)",
                  "16 symbolic bytes, numBits any value in 257..2^32-1"))
-for name, b, s, tier in [("b1_s0", "1", 0, "quick"), ("b1_s33", "1", 33, "quick"), ("b1_s255", "1", 255, "thorough"),
+for name, b, s, tier in [("b1_s0", "1", 0, "quick"), ("b1_s33", "1", 33, "thorough"), ("b1_s255", "1", 255, "thorough"),
                          ("b1_s256", "1", 256, "quick"), ("b1_s300", "1", 300, "thorough"),
                          ("b31_s64", "2^31-2", 64, "thorough"), ("b32_s300", "2^32-1", 300, "quick")]:
     _numset.append(H("c14_from_base_and_set_" + name, _ns,
@@ -118,12 +118,8 @@ _M("c14_msg_dst_acknack_33_le", "INFO_DST, ACKNACK as Reader::send_acknack_to", 
 _M("c14_msg_dst_acknack_32_be", "INFO_DST, ACKNACK", "BE, Final, num_bits 32; " + _SYM)
 _M("c14_msg_dst_nackfrag2_1_33_le", "INFO_DST, NACK_FRAG, NACK_FRAG as Reader::send_nackfrags_to", "LE, num_bits 1 and 33; " + _SYM)
 _M("c14_msg_dst_nackfrag2_32_0_be", "INFO_DST, NACK_FRAG, NACK_FRAG", "BE, num_bits 32 and 0; " + _SYM)
-for n, en in ((0, "le"), (1, "le"), (2, "be"), (3, "le"), (4, "be"), (5, "le")):
-    _M("c14_msg_ts_data%d_hb_%s" % (n, en), "INFO_TS, DATA, HEARTBEAT as Writer::send_cache_change (real data_msg, no inline QoS)",
-       "%s; serialized payload = 4 header bytes + %d value bytes (padded to 4 on the wire); %s" % (en.upper(), n, _SYM))
-for f, en in ((1, "le"), (2, "be"), (3, "le")):
-    _M("c14_msg_ts_datafrag_f%d_%s" % (f, en), "INFO_TS, DATA_FRAG (real data_frag_msg; the 4-alignment of a trailing DATA_FRAG is not asserted: RustDDS does not pad it)",
-       "%s; fragment %d of a 9-byte sample cut at 4 bytes (4, 4, 1 bytes); %s" % (en.upper(), f, _SYM))
+# NOT registered (harnesses exist in c14_msg.rs: c14_msg_ts_data{0..5}_hb_*, c14_msg_ts_datafrag_f{1,2,3}_*): the [INFO_TS, DATA,
+# HEARTBEAT] instance exceeded the 7 GB memory cap after 9 min; see "outside".
 
 # ---- remaining submessage bodies and the RTPS header (c14_bodies.rs, child of rtps::submessage)
 _bo = "rtps::submessage::verif_harness_c14_bodies"
